@@ -43,6 +43,9 @@ def configs(tier, seed):
                 continue
             out.append(dict(layer='j1', biort=b, magbias=mb, colour=col, H=h, W=w, C=C, mode='symmetric'))
     out.append(dict(layer='j1', biort='near_sym_a', magbias=0.01, colour=False, H=4, W=4, C=1, mode='zero'))
+    out.append(dict(layer='j1', biort='near_sym_b_bp', magbias=0.01, colour=False, H=4, W=4, C=1, mode='zero'))
+    out.append(dict(layer='j1', biort='near_sym_b', magbias=0.01, colour=False, H=4, W=6, C=1, mode='zero'))
+    out.append(dict(layer='j2', biort='near_sym_a', qshift='qshift_06', magbias=0.01, colour=False, H=8, W=8, C=1, mode='symmetric'))
     out.append(dict(layer='j1', biort='near_sym_a', magbias=0.01, colour=False, H=4, W=4, C=1, mode='zero', low_only=True))
     out.append(dict(layer='j1', biort='near_sym_a', magbias=0.01, colour=False, H=4, W=4, C=1, mode='symmetric', low_only=True))
     out.append(dict(layer='j1', biort='near_sym_a', magbias=0.01, colour=False, H=6, W=6, C=1, mode='symmetric', purify=True))
